@@ -6,8 +6,9 @@ META = dict(
               "restart, advance tick} on a real Logger+Log driven through its runner generator, files on an in-memory "
               "file system, step-by-step comparison with a reference model of the statement",
     text="For each of the 7 rules x field selection {all, one} (plus, for change and update, logs with two - thorough also three - loggees, "
-         "each with its own write operation, and two-loggee logs whose first or second loggee has never been stamped and is written "
-         "with the non-stamping Share.change): breadth-first search, with canonical-state dedupe, over every history "
+         "each with its own write operation, two-loggee logs whose first or second loggee has never been stamped and is written "
+         "with the non-stamping Share.change, and change-rule logs whose field selection names a field the share lacks at START - in first, "
+         "middle and last position - that is created later with None or with a value): breadth-first search, with canonical-state dedupe, over every history "
          "of up to 6 (quick) / 12 (thorough) operations after START from the alphabet {RUN, tick, write same value, write different "
          "value, write other field, push to deck / append to streak list (a proper entry by a producer that re-fetches the container from the "
          "share each time, the same by a producer holding the container it obtained once, or the next of None, 0, '', {}, []), STOP+START "
@@ -633,6 +634,9 @@ def run():
         "fields=two-x0 / two-y0: loggee x / y is initialised and written with Share.change(), which leaves share.stamp None; such a write "
         "is not an 'update' (no record promised by rule update) but is a value change for rule change; stamped updates of the other "
         "loggee must be recorded whatever the position of the unstamped one",
+        "fields=abs-*: a selected field the share does not have is an empty column; when the field appears (with None or a value) the "
+        "logged field differs from its last logged value, so rule change promises a record; changes of the other selected fields must be "
+        "recorded whatever the position of the absent one",
         "canonical state = logger status/desire, ages (in ticks) of log, share and logger stamps, share values, queue contents by element kind, last-logged values, "
         "file-open flags, plus the reference's own state; histories reaching the same canonical state are expanded once",
     ]
